@@ -213,8 +213,72 @@ def special_c04(tier, seed, th, chk):
              "stats": {"cases.static_programs": n, "nontrivial.static": n}, "samples": samples, "wall": time.time() - t0, "cached": False}]
 
 
+def special_miri(prop, tier, seed, th, chk):
+    """A sample of the cases under Miri (exact-size heap allocations; SIMD is disabled by build.rs under Miri,
+    so this exercises the parser core, the SWAR scanners and the unsafe header-array glue): out-of-bounds
+    accesses inside an allocation, reads of uninitialised header slots, invalid pointer arithmetic.  The
+    observations are judged like any others."""
+    import subprocess, os, time, json
+    n_target = 250 if tier == "quick" else 2500
+    cdir = os.path.join(chk.BUILD, "cache", th, "miri-%s-%s" % (tier, seed))
+    res_path = os.path.join(cdir, "result.json")
+    with chk.Lock("miri"):
+        if os.path.exists(res_path):
+            r = json.load(open(res_path)); r["cached"] = True
+            return [r]
+        t0 = time.time()
+        os.makedirs(cdir, exist_ok=True)
+        gen_bin, err = chk.build_harness("dev")
+        if gen_bin is None:
+            return [{"family": "miri", "variant": "miri", "build_failed": True, "log": err, "fails": [], "stats": {}, "samples": {}, "n": 0, "wall": 0}]
+        allc = os.path.join(cdir, "all.txt")
+        with open(allc, "w") as f:
+            for fam in ("core", "entries", "hist", "caps", "chunk"):
+                subprocess.run([gen_bin, "gen", fam, "quick", str(seed)], stdout=f, env=chk.ENV, check=True)
+        lines = sorted(set(open(allc).read().splitlines()))
+        os.remove(allc)
+        step = max(1, len(lines) // n_target)
+        sample = lines[::step][:n_target]
+        # plus: truly uninitialised arrays through the uninit entry points, for every message-like sample
+        mu = []
+        for l in sample:
+            t = l.split()
+            if t and t[0] in ("req", "resp") and len(t) == 4:
+                mu.append("mu %s %s %s %s" % (t[0], t[1], t[2], t[3]))
+        cases = os.path.join(cdir, "cases.txt")
+        open(cases, "w").write("\n".join(sample + mu[: n_target // 2]) + "\n")
+        env = dict(chk.ENV, RUSTFLAGS="--cfg httparse_verif", MIRIFLAGS="-Zmiri-disable-isolation", CARGO_TARGET_DIR=os.path.join(chk.BUILD, "h-miri"))
+        obs = os.path.join(cdir, "obs.txt")
+        with open(cases) as i, open(obs, "w") as o:
+            pr = subprocess.run(["cargo", "+nightly", "miri", "run", "-q", "--", "run"], cwd=chk.harness_dir(), stdin=i, stdout=o, stderr=subprocess.PIPE, text=True, env=env, timeout=7200)
+        fails = []
+        got = sum(1 for _ in open(obs))
+        n = sum(1 for _ in open(cases))
+        if pr.returncode != 0 or got < n:
+            cl = open(cases).read().splitlines()
+            culprit = cl[got] if got < len(cl) else "?"
+            msg = [l for l in pr.stderr.splitlines() if "error" in l.lower() or "Undefined Behavior" in l]
+            fails.append("FAIL %s hard | Miri reports undefined behaviour (or the run died) | %s | %s" % (prop, culprit, " ".join(msg[:3])[:500] or pr.stderr[-300:].replace("\n", " ")))
+        with open(obs) as i:
+            j = subprocess.run([chk.DRIVER, "judge"], stdin=i, capture_output=True, text=True, env=chk.ENV)
+        jp = os.path.join(cdir, "judge.txt")
+        open(jp, "w").write(j.stdout)
+        f2, stats, samples = chk.parse_judge([jp])
+        # `mu` lines are not judged by the driver (their observation has no array dump): BADLINE entries for them are expected
+        f2 = [x for x in f2 if " mu " not in x and "| mu " not in x]
+        stats.pop("badline", None)
+        stats["cases.miri"] = n
+        stats["nontrivial.miri"] = got
+        r = {"family": "miri-sample", "variant": "miri(swar,dev)", "tier": tier, "seed": seed, "n": n, "fails": (fails + f2)[:200], "nfails": len(fails) + len(f2),
+             "stats": stats, "samples": {"miri": sample[0] if sample else ""}, "wall": time.time() - t0, "cached": False}
+        json.dump(r, open(res_path, "w"))
+        return [r]
+
+
 def special(prop, tier, seed, th, chk):
     import subprocess, json, os, time
+    if prop in ("C01", "C17"):
+        return special_miri(prop, tier, seed, th, chk)
     if prop == "C04":
         return special_c04(tier, seed, th, chk)
     if prop == "C20":
